@@ -147,6 +147,14 @@ class Env(object):
             def setTransmissionData(s, data):
                 return False
 
+            def deserialize(s, incoming=False):
+                raise IOError("no dump")
+
+            def finishIncoming(s, accept):
+                # repair D70: the received snapshot replaces the stored one only when the node installs it
+                s.finished = getattr(s, "finished", []) + [bool(accept)]
+                return True if not accept else not getattr(s, "store_fails", False)
+
             def serialize(s, data, entry_id):
                 s.serialized = getattr(s, "serialized", []) + [(data, entry_id)]
         self.Ser = Ser
